@@ -9,7 +9,8 @@ step  : {"op": "new", "gen": <id>, "lang": "c"|"cpp"|"py"|"html", "lang_opts": {
         {"op": "run", "gen": <id>, "perm": <int seed>|"rev"|{"first": <type id>}|null, "chunks": bool}
         {"op": "clear_caches"}                          functools caches of nunavut + loader memo of every live generator
 stdout: {"out": [result per step]};  result of a run: {"order": [type id in processing order], "files": {type id: text},
-         "chunks": {type id: [template chunk, ...]} (if asked), "uniq_reset_calls": n}
+         "chunks": {type id: [template chunk, ...]} (if asked), "tmpl": {type id: template name}, "cls": {type id: class}};
+        result of a new: {"tset": [[stem, path] of the generator's template listing], "pps": [...]};  top level "forest": {class: [bases]}
 type id = full_name.major.minor.
 
 Processing order is permuted harness-side (Namespace.get_all_datatypes/get_all_types are wrapped; /repo is untouched);
@@ -72,6 +73,7 @@ def _generate_code(self, output_path, template, template_gen, allow_overwrite):
     r = _orig_generate_code(self, output_path, template, tee(), allow_overwrite)
     if STATE['chunklog'] is not None:
         STATE['chunklog'][str(output_path)] = rec
+    STATE.setdefault('tmpl', {})[str(output_path)] = template.name
     return r
 
 
@@ -136,7 +138,10 @@ def main():
                     kw['post_processors'] = [mk_pp(p) for p in st['pps']]
                 g = DSDLCodeGenerator(ns, **kw)
                 gens[st['gen']] = {'gen': g, 'ns': ns, 'types': types}
-                outs.append({'ok': True, 'n_types': len(types),
+                ld = g.dsdl_loader
+                inner = ld._fsloader if ld._fsloader is not None else ld._package_loader
+                listing = [[pathlib.Path(x).stem, x] for x in inner.list_templates() if pathlib.Path(x).suffix == '.j2']
+                outs.append({'ok': True, 'n_types': len(types), 'tset': listing,
                              'pps': [(['limit', p._max_empty_lines] if isinstance(p, LimitEmptyLines) else
                                       ['trim'] if isinstance(p, TrimTrailingWhitespace) else ['other', type(p).__name__])
                                      for p in (g._post_processors or [])]})
@@ -145,18 +150,21 @@ def main():
                 STATE['perm'] = st.get('perm')
                 STATE['order'] = []
                 STATE['chunklog'] = {} if st.get('chunks') else None
+                STATE['tmpl'] = {}
                 g['gen'].generate_all()
-                order, files, chunks = [], {}, {}
+                order, files, chunks, tmpls, classes = [], {}, {}, {}, {}
                 for t, path in STATE['order']:
                     if not isinstance(t, pydsdl.CompositeType):
                         continue
                     k = tid(t)
                     order.append(k)
+                    tmpls[k] = STATE['tmpl'].get(str(path))
+                    classes[k] = type(t).__name__
                     with open(str(path), 'r', encoding='utf-8', newline='') as f:
                         files[k] = f.read()
                     if STATE['chunklog'] is not None:
                         chunks[k] = STATE['chunklog'].get(str(path))
-                r = {'order': order, 'files': files}
+                r = {'order': order, 'files': files, 'tmpl': tmpls, 'cls': classes}
                 if st.get('chunks'):
                     r['chunks'] = chunks
                 outs.append(r)
@@ -167,7 +175,18 @@ def main():
                 raise ValueError(st['op'])
         except Exception as ex:  # noqa
             outs.append({'err': repr(ex), 'tb': traceback.format_exc()[-1500:]})
-    json.dump({'out': outs}, sys.stdout)
+    # the pydsdl class forest this interpreter sees: name -> names of __bases__ without object
+    # (pydsdl.Any and everything below it, plus the ancestors of pydsdl.Any)
+    forest, todo = {}, [(pydsdl.Any, True)]
+    while todo:
+        c, down = todo.pop()
+        if c.__name__ in forest:
+            continue
+        forest[c.__name__] = [b.__name__ for b in c.__bases__ if b is not object]
+        todo.extend((b, False) for b in c.__bases__ if b is not object)
+        if down:
+            todo.extend((d, True) for d in c.__subclasses__())
+    json.dump({'out': outs, 'forest': forest}, sys.stdout)
 
 
 if __name__ == '__main__':
